@@ -39,7 +39,8 @@ class FuncUnit:
                                     lambda it, a: self.call(it, world, a),
                                     lambda it, a, r: self.ensures(it, world, a, r), ["C01"],
                                     allow_raises=self.allow_raises, cover=self.cover, prop_map=pm, only_prop=prop,
-                                    check_frame=self.check_frame, contracts=self.contracts)
+                                    check_frame=self.check_frame, contracts=self.contracts,
+                                    configure=getattr(self, "configure", None))
         for o in obs:
             o.kind = "func"
         return obs, info
